@@ -15,6 +15,166 @@ from dataclasses import dataclass, field, replace
 from .core import AnalysisError
 
 
+_UNPARSED: dict = {}
+
+
+def _unparse(node) -> str:
+    """ast.unparse with a memo: the trees of the analysed sources are read again and again"""
+    hit = _UNPARSED.get(id(node))
+    if hit is not None and hit[0] is node:
+        return hit[1]
+    text = ast.unparse(node)
+    _UNPARSED[id(node)] = (node, text)
+    return text
+
+
+_MUTATORS = {'append', 'extend', 'insert', 'pop', 'remove', 'clear', 'update', 'add', 'discard', 'setdefault', 'sort', 'reverse',
+             'popitem', 'write', 'writelines', 'send', 'close', 'appendleft', 'popleft', 'difference_update', 'intersection_update',
+             'symmetric_difference_update', '__setitem__', '__delitem__', '__setattr__'}
+_READERS = {'copy', 'startswith', 'endswith', 'lower', 'upper', 'strip', 'lstrip', 'rstrip', 'format', 'join', 'split', 'get', 'keys',
+            'values', 'items', 'index', 'count', 'replace', 'isdigit', 'isalpha', 'isalnum', 'title', 'find', 'rfind', 'zfill',
+            'isupper', 'islower', 'partition', 'rpartition', 'splitlines', 'casefold', 'encode', 'decode', 'union', 'intersection',
+            'difference', 'issubset', 'issuperset', 'isdisjoint', '__subclasses__', 'mro', 'findall', 'match', 'search', 'fullmatch',
+            'sub', 'compile', 'finditer', 'group', 'groups', 'start', 'end', 'span', 'escape'}
+_PURE_BUILTINS = {'len', 'isinstance', 'issubclass', 'set', 'list', 'tuple', 'dict', 'frozenset', 'str', 'int', 'float', 'bool', 'any', 'all',
+                  'min', 'max', 'sum', 'sorted', 'reversed', 'enumerate', 'zip', 'range', 'type', 'repr', 'abs', 'super', 'getattr', 'hasattr',
+                  'map', 'filter', 'ord', 'chr', 'round', 'id'}
+
+
+def _fresh_expr(e) -> bool:
+    """an expression whose value is an object made on the spot (no other holder)"""
+    if isinstance(e, (ast.List, ast.ListComp, ast.Dict, ast.DictComp, ast.Set, ast.SetComp, ast.Tuple, ast.Constant, ast.JoinedStr)):
+        return True
+    if isinstance(e, ast.Call) and isinstance(e.func, ast.Name) and e.func.id in ('list', 'dict', 'set', 'sorted', 'tuple'):
+        return True
+    if isinstance(e, ast.Call) and isinstance(e.func, ast.Attribute) and e.func.attr == 'copy' and not e.args:
+        return True
+    if isinstance(e, ast.Subscript) and isinstance(e.slice, ast.Slice):
+        return True
+    if isinstance(e, ast.BinOp) and isinstance(e.op, ast.Add):
+        return True
+    return False
+
+
+def pure_functions(class_table: dict, exception_names=(), assume_pure=()) -> set:
+    """ids of the methods of `class_table` that are functions of their arguments and of the state fixed at import: they store to
+    nothing but their own fresh locals (a constructor: to the attributes of the object under construction), and call only such
+    methods, constructors of the table and reading builtins.  Conservative: anything not recognised makes the method impure.
+    The result of such a method on equal arguments may be remembered (the parser tries the same span again and again)."""
+    methods = {}                                   # id -> (cname, FunctionDef)
+    by_name: dict = {}
+    for cname, e in class_table.items():
+        for mname, fn in e.get('methods', {}).items():
+            if isinstance(fn, (ast.FunctionDef,)):
+                methods[id(fn)] = (cname, fn)
+                by_name.setdefault(mname, []).append(fn)
+    local_bad, callees = {}, {}
+    for fid, (cname, fn) in methods.items():
+        bad = False
+        calls = set()
+        is_init = fn.name == '__init__'
+        self_name = fn.args.args[0].arg if fn.args.args else None
+        assigned: dict = {}
+        aug_names: set = set()
+        for n in ast.walk(fn):
+            if isinstance(n, ast.Assign):
+                for t in n.targets:
+                    if isinstance(t, ast.Name):
+                        assigned.setdefault(t.id, []).append(n.value)
+                    elif isinstance(t, (ast.Tuple, ast.List)):
+                        for el in ast.walk(t):
+                            if isinstance(el, ast.Name):
+                                assigned.setdefault(el.id, []).append(None)
+            elif isinstance(n, (ast.AugAssign, ast.AnnAssign)) and isinstance(n.target, ast.Name):
+                assigned.setdefault(n.target.id, []).append(n.value if isinstance(n, ast.AnnAssign) else None)
+                if isinstance(n, ast.AugAssign):
+                    aug_names.add(n.target.id)
+            elif isinstance(n, ast.NamedExpr):
+                assigned.setdefault(n.target.id, []).append(n.value)
+            elif isinstance(n, (ast.For, ast.comprehension)):
+                for el in ast.walk(n.target):
+                    if isinstance(el, ast.Name):
+                        assigned.setdefault(el.id, []).append(None)
+        params = {a.arg for a in fn.args.posonlyargs + fn.args.args + fn.args.kwonlyargs} | \
+                 ({fn.args.vararg.arg} if fn.args.vararg else set()) | ({fn.args.kwarg.arg} if fn.args.kwarg else set())
+
+        def fresh_local(name):
+            return name not in params and name in assigned and all(v is not None and _fresh_expr(v) for v in assigned[name])
+        # `x += y` changes a list in place: only on a local that holds nothing but values made on the spot or numbers / texts
+        for nm in aug_names:
+            others = [v for v in assigned.get(nm, []) if v is not None]
+            if nm in params or not others or not all(_fresh_expr(v) for v in others):
+                bad = True
+        for n in ast.walk(fn):
+            if isinstance(n, (ast.Global, ast.Nonlocal, ast.Delete, ast.Yield, ast.YieldFrom, ast.Await, ast.With, ast.AsyncWith)):
+                bad = True
+            elif isinstance(n, (ast.Attribute, ast.Subscript)) and isinstance(n.ctx, (ast.Store, ast.Del)):
+                base = n.value
+                if isinstance(n, ast.Attribute) and is_init and isinstance(base, ast.Name) and base.id == self_name:
+                    continue
+                if isinstance(n, ast.Attribute) and isinstance(base, ast.Name) and (base.id == 'cls' or base.id in class_table):
+                    continue                        # state of a class: the evaluator counts these stores (state_version)
+                if isinstance(base, ast.Name) and fresh_local(base.id):
+                    continue
+                bad = True
+            elif isinstance(n, ast.Call):
+                f = n.func
+                if isinstance(f, ast.Name):
+                    calls.add(('name', f.id))
+                elif isinstance(f, ast.Attribute):
+                    if f.attr in _MUTATORS:
+                        class_held = isinstance(f.value, ast.Attribute) and isinstance(f.value.value, ast.Name) and \
+                            (f.value.value.id == 'cls' or f.value.value.id in class_table)
+                        if not class_held and not (isinstance(f.value, ast.Name) and fresh_local(f.value.id)):
+                            bad = True
+                    elif f.attr in _READERS and f.attr not in by_name:
+                        pass
+                    else:
+                        calls.add(('attr', f.attr))
+                else:
+                    bad = True
+        local_bad[fid] = bad
+        callees[fid] = calls
+    pure = {fid for fid, b in local_bad.items() if not b}
+    for nm in assume_pure:                       # modelled natively by the caller: never evaluated
+        by_name[nm] = []
+    inits = by_name.get('__init__', [])
+    changed = True
+    while changed:
+        changed = False
+        for fid in list(pure):
+            cname, fn = methods[fid]
+            ok = True
+            for kind, name in callees[fid]:
+                if kind == 'name':
+                    if name in _PURE_BUILTINS or name in exception_names:
+                        continue
+                    if name in class_table or name in ('cls',) or name in {a.arg for a in fn.args.args}:
+                        # a constructor of the table (or of a class handed in): every constructor must be pure
+                        if all(id(i) in pure for i in inits):
+                            continue
+                    # a local that holds a class (for token in tokens: token(...))
+                    ok = False
+                    break
+                else:
+                    targets = by_name.get(name)
+                    if name in assume_pure:
+                        continue
+                    if not targets or not all(id(t) in pure for t in targets):
+                        ok = False
+                        break
+            if not ok:
+                pure.discard(fid)
+                changed = True
+    return pure
+
+
+def memoizable(class_table: dict, names, exception_names=(), assume_pure=()):
+    """(ids of the pure methods of `class_table` called `names`, ids of all its pure methods)"""
+    pure = pure_functions(class_table, exception_names, assume_pure)
+    return {id(fn) for e in class_table.values() for n, fn in e.get('methods', {}).items() if n in names and id(fn) in pure}, pure
+
+
 @dataclass(frozen=True)
 class AV:
     kind: str                      # int float bool blank str date datetime none list tuple func other
@@ -564,7 +724,22 @@ class Evaluator:
         if not hasattr(self, 'forward'):
             self.forward = {}
         self.forward[id(old)] = (old, new)
+        self._count_effect()
+        if not hasattr(self, 'fw_log'):
+            self.fw_log = []
+        self.fw_log.append(id(old))
         return new
+
+    def _count_effect(self):
+        """a store into an object or an in-place change of a container: a change of the state remembered answers depend on, unless it
+        happens in a method that (statically, see pure_functions) touches only what it made itself"""
+        pure = getattr(self, 'pure_ids', None)
+        if pure is None:
+            return
+        stack = getattr(self, '_fn_stack', None)
+        if stack and id(stack[-1]) in pure:
+            return
+        self.state_version = getattr(self, 'state_version', 0) + 1
 
     def _latest(self, v: AV) -> AV:
         fw = getattr(self, 'forward', {})
@@ -907,10 +1082,12 @@ class Evaluator:
             base = self.ev(t.value, env)
             if self.is_class_value(base):
                 self.class_state[(base.val[1], t.attr)] = v
+                self.state_version = getattr(self, 'state_version', 0) + 1
                 return
             if base.kind != 'obj':
                 raise Unknown('attribute store on a value that is not a modelled object')
             self.obj_attrs(base)[t.attr] = v
+            self._count_effect()
             return
         if isinstance(t, ast.Subscript) and not isinstance(t.slice, ast.Slice):
             key = self.ev(t.slice, env)
@@ -944,7 +1121,60 @@ class Evaluator:
             raise Unknown('in-place change of a container that is visible under two names')
         self.assign_to(node, new_of(cur), env, old=cur)
 
+    def _memo_key(self, v: AV, depth: int = 0):
+        if depth > 6:
+            return None
+        if v.kind == 'obj' and isinstance(v.val, tuple):
+            return ('o', v.val[1])
+        if v.kind in ('list', 'tuple', 'dict'):
+            if v.items is None:
+                return None
+            ks = []
+            for x in v.items:
+                k = self._memo_key(x, depth + 1)
+                if k is None:
+                    return None
+                ks.append(k)
+            return (v.kind, tuple(ks))
+        if v.kind == 'none':
+            return ('none',)
+        if v.kind == 'other' and isinstance(v.val, tuple) and v.val and v.val[0] in ('class', 'name') and len(v.val) == 2 and isinstance(v.val[1], str):
+            return v.val
+        if v.kind in ('int', 'float', 'bool', 'str') and v.val is not None and isinstance(v.val, (int, float, bool, str)):
+            return (v.kind, v.val)
+        return None
+
     def call_function(self, fn: ast.FunctionDef, args: list, kwargs: dict | None = None) -> AV:
+        """a function; the answer of a pure method (see pure_functions) on arguments seen before is the answer given before"""
+        memo_fns = getattr(self, 'memo_functions', None)
+        if not memo_fns or id(fn) not in memo_fns or kwargs:
+            return self._call_function(fn, args, kwargs)
+        ks = []
+        for a in args:
+            k = self._memo_key(a)
+            if k is None:
+                return self._call_function(fn, args, kwargs)
+            ks.append(k)
+        key = (id(fn), tuple(ks))
+        memo = self.__dict__.setdefault('_pure_memo', {})
+        hit = memo.get(key)
+        before = getattr(self, 'state_version', 0)
+        if hit is not None and hit[2] == before:
+            self.memo_hits = getattr(self, 'memo_hits', 0) + 1
+            if hit[0] == 'raise':
+                raise hit[1]
+            return hit[1]
+        try:
+            out = self._call_function(fn, args, kwargs)
+        except AbsRaise as e:
+            if getattr(self, 'state_version', 0) == before:          # an answer given while the state moved is not remembered
+                memo[key] = ('raise', e, before)
+            raise
+        if getattr(self, 'state_version', 0) == before:
+            memo[key] = ('value', out, before)
+        return out
+
+    def _call_function(self, fn: ast.FunctionDef, args: list, kwargs: dict | None = None) -> AV:
         """a module-level function (no self)"""
         if self.depth >= self.max_depth:
             raise Unknown(f'inlining depth exceeded at {fn.name}')
@@ -1034,28 +1264,53 @@ class Evaluator:
         return v
 
     def _deep_latest(self, v: AV, depth: int = 4) -> AV:
-        """the latest state of a container and of the containers it holds (an element changed in place through another name)"""
+        """the latest state of a container and of the containers it holds (an element changed in place through another name).
+        A container is looked through again only when one of the containers inside it was forwarded since the last look."""
         v = self._latest(v) if v.kind in ('list', 'dict') else v
         if depth <= 0 or v.items is None or not v.items:
             return v
         fw = self.forward
-        key = (id(v), len(fw))
-        cache = getattr(self, '_latest_cache', None)
-        if cache is None:
-            cache = self._latest_cache = {}
-        hit = cache.get(key)
+        log = getattr(self, 'fw_log', None)
+        if log is None:
+            log = self.fw_log = list(fw)
+        memo = getattr(self, '_dl_memo', None)
+        if memo is None:
+            memo = self._dl_memo = {}
+        key = (id(v), depth)
+        hit = memo.get(key)
         if hit is not None and hit[0] is v:
-            return hit[1]
+            _, gen, out, desc = hit
+            if gen == len(log):
+                return out
+            moved = False
+            for i in range(gen, len(log)):
+                if log[i] in desc:
+                    moved = True
+                    break
+            if not moved:
+                memo[key] = (v, len(log), out, desc)
+                return out
         changed = False
         items = []
+        desc = {id(v)}
         for x in v.items:
-            y = self._deep_latest(x, depth - 1) if x.kind in ('list', 'dict', 'tuple') else x
-            changed = changed or (y is not x)
-            items.append(y)
+            if x.kind in ('list', 'dict', 'tuple'):
+                y = self._deep_latest(x, depth - 1)
+                changed = changed or (y is not x)
+                items.append(y)
+                sub = memo.get((id(y), depth - 1))
+                desc.add(id(y))
+                if sub is not None and sub[0] is y:
+                    desc |= sub[3]
+            else:
+                items.append(x)
         out = replace(v, items=tuple(items)) if changed else v
         if changed:
             fw[id(v)] = (v, out)             # the holder follows its elements
-        cache[key] = (v, out)
+            log.append(id(v))
+            desc.add(id(out))
+            memo[(id(out), depth)] = (out, len(log), out, desc)
+        memo[key] = (v, len(log), out, desc)
         return out
 
     def _ev(self, node, env) -> AV:
@@ -1121,7 +1376,7 @@ class Evaluator:
         if isinstance(node, ast.Attribute):
             base = node.value
             # class references: datetime.date / datetime.datetime / self.EmptyCell / self.__class__
-            txt = ast.unparse(node)
+            txt = _unparse(node)
             if isinstance(node.value, ast.Name) and node.value.id == 'operator' and node.attr in ('eq', 'ne', 'lt', 'le', 'gt', 'ge', 'add', 'sub'):
                 opn = {'eq': ast.Eq, 'ne': ast.NotEq, 'lt': ast.Lt, 'le': ast.LtE, 'gt': ast.Gt, 'ge': ast.GtE}.get(node.attr)
                 if opn is not None:
@@ -1415,7 +1670,7 @@ class Evaluator:
             for e in node.elts:
                 out += self._class_names(e, env)
             return out
-        txt = ast.unparse(node)
+        txt = _unparse(node)
         table = {'int': 'int', 'float': 'float', 'str': 'str', 'bool': 'bool', 'list': 'list', 'tuple': 'tuple', 'dict': 'dict',
                  'datetime.date': 'date', 'datetime.datetime': 'datetime', 'self.EmptyCell': 'EmptyCell',
                  'self.__class__': 'EmptyCell', 'object': 'object', 'type(None)': 'NoneType'}
@@ -1451,7 +1706,7 @@ class Evaluator:
             return _recv_memo[0]
         ext_ = getattr(self, 'externals', None)
         if ext_:
-            txt_ = ast.unparse(f)
+            txt_ = _unparse(f)
             if txt_ in ext_ and not (name is not None and name in env):
                 return ext_[txt_](self._args(node, env), {k.arg: self.ev(k.value, env) for k in node.keywords if k.arg})
         if name in ('float', 'int', 'str', 'abs', 'bool') and len(node.args) == 1 and not node.keywords and name not in env and \
@@ -1512,7 +1767,7 @@ class Evaluator:
         if name == 'isinstance':
             v = self.ev(node.args[0], env)
             return const_av(any(self.is_inst(v, c) for c in self._class_names(node.args[1], env)))
-        if ast.unparse(f) in ('replace', 'dataclasses.replace') and len(node.args) == 1 and not (name is not None and name in env):
+        if _unparse(f) in ('replace', 'dataclasses.replace') and len(node.args) == 1 and not (name is not None and name in env):
             o_ = self.ev(node.args[0], env)
             if o_.kind == 'obj' and isinstance(o_.val, tuple):
                 at_ = dict(self.obj_attrs(o_))
@@ -1718,7 +1973,7 @@ class Evaluator:
             if v.items is None:
                 raise Unknown('enumerate of a collection of unknown contents')
             return AV('list', items=tuple(AV('tuple', items=(const_av(start + i), x)) for i, x in enumerate(v.items)))
-        if ast.unparse(f) == 'dict.fromkeys' and 1 <= len(node.args) <= 2:
+        if _unparse(f) == 'dict.fromkeys' and 1 <= len(node.args) <= 2:
             seq_ = self.ordered(self.ev(node.args[0], env))
             if seq_.items is None:
                 raise Unknown('dict.fromkeys of unknown contents')
@@ -1768,10 +2023,10 @@ class Evaluator:
             v = self.ev(node.args[0], env)
             if v.kind in ('int', 'float'):
                 return replace(v, sign='zero' if v.sign == 'zero' else 'pos' if v.sign else None)
-        if ast.unparse(f) in ('Decimal', 'decimal.Decimal', 'DecimalContext', 'Context', 'decimal.Context') and \
+        if _unparse(f) in ('Decimal', 'decimal.Decimal', 'DecimalContext', 'Context', 'decimal.Context') and \
                 not (isinstance(f, ast.Name) and f.id in env):
             import decimal as _d
-            target_ = _d.Decimal if ast.unparse(f).endswith('Decimal') else _d.Context
+            target_ = _d.Decimal if _unparse(f).endswith('Decimal') else _d.Context
             return self._decimal_call(target_, self._args(node, env), {k.arg: self.ev(k.value, env) for k in node.keywords if k.arg})
         if isinstance(f, ast.Attribute) and not (isinstance(f.value, ast.Name) and f.value.id in ('self', 'cls', 're', 'datetime', 'math')):
             try:
@@ -1797,23 +2052,23 @@ class Evaluator:
                 return self._py(round(*[self._to_python(v_) for v_ in vs_]))
             except (ValueError, TypeError, OverflowError) as e_:
                 raise AbsRaise(type(e_).__name__, str(e_))
-        if ast.unparse(f) in ('trunc', 'math.trunc', 'math.floor', 'math.ceil', 'floor', 'ceil') and len(node.args) == 1 and not node.keywords:
+        if _unparse(f) in ('trunc', 'math.trunc', 'math.floor', 'math.ceil', 'floor', 'ceil') and len(node.args) == 1 and not node.keywords:
             v0 = self.ev(node.args[0], env)
             if v0.kind == 'other' and isinstance(v0.val, tuple) and v0.val[0] == 'py':
                 import math as _math
-                return self._py(getattr(_math, ast.unparse(f).split('.')[-1])(v0.val[1]))
+                return self._py(getattr(_math, _unparse(f).split('.')[-1])(v0.val[1]))
             if v0.kind in ('int', 'float', 'bool') and isinstance(v0.val, (int, float)):
                 import math as _math
                 try:
-                    return const_av(getattr(_math, ast.unparse(f).split('.')[-1])(v0.val))
+                    return const_av(getattr(_math, _unparse(f).split('.')[-1])(v0.val))
                 except (ValueError, OverflowError) as e_:
                     raise AbsRaise(type(e_).__name__, str(e_))
             if v0.kind not in ('int', 'float', 'bool'):
-                raise AbsRaise('TypeError', f'{ast.unparse(f)} of {v0.kind}')
-            if ast.unparse(f).split('.')[-1] == 'trunc':
+                raise AbsRaise('TypeError', f'{_unparse(f)} of {v0.kind}')
+            if _unparse(f).split('.')[-1] == 'trunc':
                 return to_int(v0)
-            raise Unknown(ast.unparse(f))
-        if ast.unparse(f) in ('calendar.monthrange', 'monthrange') and len(node.args) == 2:
+            raise Unknown(_unparse(f))
+        if _unparse(f) in ('calendar.monthrange', 'monthrange') and len(node.args) == 2:
             y_, m_ = self.ev(node.args[0], env), self.ev(node.args[1], env)
             if isinstance(y_.val, int) and isinstance(m_.val, int):
                 import calendar as _cal
@@ -1823,7 +2078,7 @@ class Evaluator:
                     raise AbsRaise(type(e_).__name__, str(e_))
                 return AV('tuple', items=(const_av(r_[0]), const_av(r_[1])))
             raise Unknown('monthrange of an unknown month')
-        if ast.unparse(f).split('.')[-1] == 'relativedelta' and not node.args:
+        if _unparse(f).split('.')[-1] == 'relativedelta' and not node.args:
             kw = {k.arg: self.ev(k.value, env) for k in node.keywords}
             if set(kw) - {'years', 'months', 'days'} or not all(isinstance(v_.val, int) and not isinstance(v_.val, bool) for v_ in kw.values()):
                 raise Unknown('relativedelta')
@@ -1896,7 +2151,7 @@ class Evaluator:
                 res_ = self.call_method(target, args, env.get('self'), kw_)
                 self._write_back(node, env)
                 return res_
-            txt = ast.unparse(f)
+            txt = _unparse(f)
             if txt in ('date_parser.parse', 'dateutil.parser.parse', 'parser.parse') and len(node.args) == 1:
                 v0 = self.ev(node.args[0], env)
                 if v0.kind != 'str':
@@ -2112,7 +2367,7 @@ class Evaluator:
             if recv.kind == 'func' and f.attr == '__call__':
                 raise Unknown('call of a lambda')
             raise Unknown(f'method {f.attr} of {recv!r}')
-        raise Unknown(f'call {ast.unparse(f)[:40]}')
+        raise Unknown(f'call {_unparse(f)[:40]}')
 
     # ---- comparison semantics -----------------------------------------------------------------------
     def eq(self, a: AV, b: AV) -> bool:
@@ -2272,7 +2527,7 @@ def evaluator_for(cp, hooks=None, max_depth: int = 8) -> Evaluator:
     for st in cp.module_tree.body:
         if isinstance(st, ast.Assign) and len(st.targets) == 1 and isinstance(st.targets[0], ast.Name) and \
                 (isinstance(st.value, (ast.Dict, ast.Tuple, ast.List, ast.Constant)) or
-                 (isinstance(st.value, ast.Call) and ast.unparse(st.value.func) == 're.compile')):
+                 (isinstance(st.value, ast.Call) and _unparse(st.value.func) == 're.compile')):
             mc[st.targets[0].id] = st.value            # (anything else, e.g. a sentinel `object()`, stays an opaque named object)
     ev.module_consts = mc
     for st in cp.module_tree.body:
